@@ -296,7 +296,9 @@ def oracle_C18(run):
         if g['code'] != r[2]:
             out.append(fail('goaway-code-differs-from-exception', i, goaway=g['code'], exc_code=r[2]))
             continue
-        if g['last'] != obs['snap_after']['hi_in']:
+        # (31 bits travel: hyperframe hands a promised stream id to h2 with the reserved bit still on it, and a refused
+        # promise is remembered under that number; on the wire it is the stream it is)
+        if g['last'] != obs['snap_after']['hi_in'] & 0x7FFFFFFF:
             out.append(fail('goaway-last-stream-id', i, got=g['last'], want=obs['snap_after']['hi_in']))
             continue
         # RFC category, where the cause is a single classified frame
@@ -975,6 +977,11 @@ def oracle_C03(run):
         if o == 'initiate_upgrade' and r[0] == 'ok':
             # the server learns the client's settings from the header: resynchronise from the snapshot
             L.iws = snap_a['remote'].get(4, [65535])[0]
+        elif o == 'initiate_upgrade' and op.get('settings_header'):
+            # a refused upgrade (say, on a connection that is already running) may have taken the header's settings in
+            # before it was refused: what the windows are after that is not for this ledger to say
+            L.tainted = True
+            continue
         # streams that came into existence get the current peer INITIAL_WINDOW_SIZE
         if is_recv(op):
             data = obs.get('xfer_data') if o == 'xfer' else op['data']
@@ -1826,6 +1833,11 @@ def oracle_C14(run):
         r = res(obs)
         hdr_call = o in ('send_headers', 'push_stream')
         ill = hdr_call and _ill_typed_headers(op)
+        if ill and r[0] == 'ok':
+            # a str/bytes mix that hpack happened to swallow: what kind of block went out (and so what the stream's next
+            # block is) cannot be told from an argument list that is no header list — this connection is left alone
+            taint.add(c)
+            continue
         args = None
         if hdr_call and not ill:
             args = [(h[0], h[1]) for h in op['headers']]
@@ -2218,7 +2230,10 @@ def oracle_C27(run):
         # connection that is closed takes no new streams at all
         sb0 = obs.get('snap_before') or {}
         idle = sorted(k for k, v in (sa.get('streams') or {}).items() if v[0] == 'IDLE' and k not in (sb0.get('streams') or {}))
-        if idle:
+        # (a connection error raised between the creation of the stream and its first transition leaves the record idle:
+        # the connection is closed by then and takes no further streams — that is the second clause — so only a
+        # connection that goes on is judged here)
+        if idle and sa.get('state') != 'CLOSED':
             out.append(fail('idle-stream-left-in-the-table', i, streams=idle[:6], state=sa.get('state')))
             break
         if sb0.get('state') == 'CLOSED' and len(sa.get('streams') or {}) > len(sb0.get('streams') or {}):
@@ -2456,7 +2471,11 @@ def oracle_C22(run):
                         and len(f['payload']) <= sb['max_in'] and len(recs) == 1 and recs[0]['res'][0] == 'ok':
                     import rulebook
                     hs = [(bytes(h[0]), bytes(h[1])) for h in recs[0]['res'][1]]
-                    if rulebook.block_problem(hs, 'request') is None and sum(len(n) + len(v) + 32 for n, v in hs) < 60000:
+                    # (plainly: printable ASCII only — with header_encoding set, bytes that are no text are refused, which
+                    # is the receiver's documented business — and a method that is a method)
+                    plain = all(0x20 <= b < 0x7f for n, v in hs for b in n + v) and \
+                        dict(hs).get(b':method') in (b'GET', b'HEAD', b'POST', b'PUT', b'DELETE', b'OPTIONS')
+                    if plain and rulebook.block_problem(hs, 'request') is None and sum(len(n) + len(v) + 32 for n, v in hs) < 60000:
                         if res(obs)[0] != 'ok' or len(evs) != 1:
                             out.append(fail('valid-promise-not-reported', i, got=obs['res'], events=ev_kinds(obs), parent=pst[0],
                                             promised=d['promised']))
@@ -2497,6 +2516,7 @@ def oracle_C16(run):
     client = roles(run)
     msg = {}        # (c, sid) -> {'cl': int|None|'bad', 'total': int, 'nobody': bool, 'started': bool}
     method = {}     # (c, sid) -> request method the client sent (first header block only)
+    gone = set()    # (c, sid) the application has reset
     for i, (op, ol, ml, obs) in enumerate(run.log):
         if obs is None:
             continue
@@ -2509,10 +2529,16 @@ def oracle_C16(run):
                 nb = n.encode('utf-8') if isinstance(n, str) else n
                 if nb.strip().lower() == b':method' and (c, op['sid']) not in method:
                     method[(c, op['sid'])] = (v.encode('utf-8') if isinstance(v, str) else v).strip()
+        if o == 'reset_stream' and r[0] == 'ok' and isinstance(op.get('sid'), int):
+            # what still arrives for a stream the application has reset is dropped, not delivered (C20): nothing to judge
+            gone.add((c, op['sid']))
+            msg.pop((c, op['sid']), None)
         if not is_recv(op):
             continue
         data = obs.get('xfer_data') if o == 'xfer' else op['data']
         rfs = raw_frames(data) if before_buf_empty(run, i, c) and buflen(ol) == '0' else None
+        if rfs is not None and len(rfs) == 1 and (c, rfs[0]['sid']) in gone:
+            continue
         if rfs is None or len(rfs) != 1 or sb['state'] == 'CLOSED':
             # not judged; forget what we tracked for this connection, later frames cannot be attributed safely
             for k in [k for k in msg if k[0] == c]:
